@@ -16,9 +16,11 @@ import (
 	"math/rand"
 	"os"
 	"os/exec"
+	"runtime"
 	"sort"
 	"strconv"
 	"strings"
+	"sync"
 	"syscall"
 	"time"
 
@@ -256,28 +258,46 @@ func refLz4Decode(src []byte) (out []byte, bad string) {
 // pierrec/lz4 emits blocks that are not an encoding of x for some inputs longer than 64 KiB (match distance
 // 65536 and above stored in the 16-bit offset field).  Everything else keeps the generic kind.
 func diagnoseLz4(x []byte, got []byte) J {
-	first := -1
-	for i := 0; i < len(x) && i < len(got); i++ {
-		if x[i] != got[i] {
-			first = i
-			break
+	// got == nil: the wrapper returned an error instead of bytes
+	j := J{"input_len": len(x), "wrapper_outcome": "different-bytes"}
+	if got == nil {
+		j["wrapper_outcome"] = "error"
+	} else {
+		first := -1
+		for i := 0; i < len(x) && i < len(got); i++ {
+			if x[i] != got[i] {
+				first = i
+				break
+			}
 		}
-	}
-	if first < 0 && len(x) != len(got) {
-		first = min(len(x), len(got))
+		if first < 0 && len(x) != len(got) {
+			first = min(len(x), len(got))
+		}
+		j["first_diff"] = first
 	}
 	dst := make([]byte, golz4.CompressBlockBound(len(x)))
 	w, err := golz4.CompressBlock(x, dst, nil)
-	j := J{"first_diff": first, "input_len": len(x)}
 	if err != nil {
 		j["kind"] = "lz4-roundtrip-differs"
 		return j
 	}
+	// where the block stops being an encoding of x, according to the independent decoder
 	ref, bad := refLz4Decode(dst[:w])
-	blockWrong := bad != "" || !bytes.Equal(ref, x)
+	pos := -1
+	for i := 0; i < len(x) && i < len(ref); i++ {
+		if x[i] != ref[i] {
+			pos = i
+			break
+		}
+	}
+	if pos < 0 && (bad != "" || len(ref) != len(x)) {
+		pos = min(len(x), len(ref))
+	}
+	blockWrong := pos >= 0
 	j["block_is_not_an_encoding_of_input"] = blockWrong
+	j["block_wrong_from_offset"] = pos
 	j["independent_decoder"] = bad
-	if blockWrong && len(x) > 65536 && first >= 65536 {
+	if blockWrong && len(x) > 65536 && pos >= 65536 {
 		j["kind"] = "lz4-block-corrupt-above-64KiB"
 	} else {
 		j["kind"] = "lz4-roundtrip-differs"
@@ -362,6 +382,85 @@ func lz4Compress(p []byte) ([]byte, bool) {
 
 const fullLimit = 1100 // segments up to this many bytes are printed in full
 
+// segRecord encodes the payload of descriptor d with the real codec, decodes the result followed by id%4 extra bytes,
+// and returns the `seg` record (observables of both directions, the independent reference layout, and for LZ4 the
+// compressed bytes that the model's oracle must answer).  Used by mode c06 and by the boundary-size part of mode c08.
+func segRecord(id int, d Desc, sc bool, comp string) J {
+	p := expand(d)
+	e := encodeSeg(comp, sc, p)
+	rec := J{"kind": "seg", "id": id, "desc": d, "sc": sc, "comp": comp, "enc_ok": e.ok}
+	if e.pan != "" {
+		rec["enc_panic"] = e.pan
+	}
+	if e.ok {
+		hl := 6
+		transmitted := p
+		ulenF, clenF := uint64(len(p)), uint64(0)
+		if comp == "lz4" {
+			hl = 8
+			cp, cok := lz4Compress(p)
+			rec["cmp_ok"] = cok
+			rec["cmp_len"] = len(cp)
+			if len(cp) <= fullLimit || len(cp) <= len(p) {
+				rec["cmp_hex"] = hex.EncodeToString(cp)
+			}
+			if len(cp) <= len(p) {
+				transmitted = cp
+				clenF = uint64(len(cp))
+			} else { // fallback prescribed by the framing: uncompressed length field 0, compressed length field = payload length
+				clenF, ulenF = uint64(len(p)), 0
+			}
+		}
+		rec["total"] = len(e.out)
+		if len(e.out) >= hl+4 {
+			rec["head"] = hex.EncodeToString(e.out[:hl])
+			rec["trailer"] = hex.EncodeToString(e.out[len(e.out)-4:])
+			rec["body_ok"] = bytes.Equal(e.out[hl:len(e.out)-4], transmitted)
+		}
+		if len(e.out) <= fullLimit {
+			rec["full"] = hex.EncodeToString(e.out)
+		}
+		rec["post"] = J{"ulen": e.ulen, "clen": e.clen, "crc32": e.c32}
+		ref := refSegment(comp == "lz4", sc, ulenF, clenF, transmitted)
+		rec["ref_ok"] = bytes.Equal(ref, e.out)
+		if !bytes.Equal(ref, e.out) && len(ref) <= fullLimit {
+			rec["ref_hex"] = hex.EncodeToString(ref)
+		}
+		restLen := id % 4
+		rest := expand(Desc{"lcg", restLen, int64(id)})
+		rec["rest"] = hex.EncodeToString(rest)
+		d := decodeSeg(comp, append(append([]byte{}, e.out...), rest...))
+		rec["dec"] = decJ(d, p)
+		if comp == "lz4" && d.class == "ok" && !bytes.Equal(d.seg.Payload.UncompressedData, p) {
+			rec["diag"] = diagnoseLz4(p, d.seg.Payload.UncompressedData)
+		} else if comp == "lz4" && d.class == "err" {
+			rec["diag"] = diagnoseLz4(p, nil)
+		}
+	}
+	return rec
+}
+
+// segxRecord: round trip of a harness-only content class through the real segment codec (implementation side only).
+func segxRecord(class string, n int, seed int64, p []byte, comp string, sc bool) J {
+	e := encodeSeg(comp, sc, p)
+	rec := J{"kind": "segx", "class": class, "len": n, "seed": seed, "plen": len(p), "comp": comp, "sc": sc, "enc_ok": e.ok}
+	if e.ok {
+		d := decodeSeg(comp, e.out)
+		rec["dec"] = decJ(d, p)
+		rec["total"] = len(e.out)
+		rec["transmitted"] = len(e.out) - 10
+		if comp == "lz4" {
+			rec["transmitted"] = len(e.out) - 12
+		}
+		if d.class == "ok" && !bytes.Equal(d.seg.Payload.UncompressedData, p) && comp == "lz4" {
+			rec["diag"] = diagnoseLz4(p, d.seg.Payload.UncompressedData)
+		} else if d.class == "err" && comp == "lz4" {
+			rec["diag"] = diagnoseLz4(p, nil)
+		}
+	}
+	return rec
+}
+
 // ---------------------------------------------------------------- c06
 
 func c06(tier string, seed int64) {
@@ -422,53 +521,7 @@ func c06(tier string, seed int64) {
 	id := 0
 	emitSeg := func(d Desc, sc bool, comp string) {
 		id++
-		p := expand(d)
-		e := encodeSeg(comp, sc, p)
-		rec := J{"kind": "seg", "id": id, "desc": d, "sc": sc, "comp": comp, "enc_ok": e.ok}
-		if e.pan != "" {
-			rec["enc_panic"] = e.pan
-		}
-		if e.ok {
-			hl := 6
-			transmitted := p
-			ulenF, clenF := uint64(len(p)), uint64(0)
-			if comp == "lz4" {
-				hl = 8
-				cp, cok := lz4Compress(p)
-				rec["cmp_ok"] = cok
-				rec["cmp_len"] = len(cp)
-				if len(cp) <= fullLimit || len(cp) <= len(p) {
-					rec["cmp_hex"] = hex.EncodeToString(cp)
-				}
-				if len(cp) <= len(p) {
-					transmitted = cp
-					clenF = uint64(len(cp))
-				} else { // fallback prescribed by the framing: uncompressed length field 0, compressed length field = payload length
-					clenF, ulenF = uint64(len(p)), 0
-				}
-			}
-			rec["total"] = len(e.out)
-			if len(e.out) >= hl+4 {
-				rec["head"] = hex.EncodeToString(e.out[:hl])
-				rec["trailer"] = hex.EncodeToString(e.out[len(e.out)-4:])
-				rec["body_ok"] = bytes.Equal(e.out[hl:len(e.out)-4], transmitted)
-			}
-			if len(e.out) <= fullLimit {
-				rec["full"] = hex.EncodeToString(e.out)
-			}
-			rec["post"] = J{"ulen": e.ulen, "clen": e.clen, "crc32": e.c32}
-			ref := refSegment(comp == "lz4", sc, ulenF, clenF, transmitted)
-			rec["ref_ok"] = bytes.Equal(ref, e.out)
-			if !bytes.Equal(ref, e.out) && len(ref) <= fullLimit {
-				rec["ref_hex"] = hex.EncodeToString(ref)
-			}
-			restLen := id % 4
-			rest := expand(Desc{"lcg", restLen, int64(id)})
-			rec["rest"] = hex.EncodeToString(rest)
-			d := decodeSeg(comp, append(append([]byte{}, e.out...), rest...))
-			rec["dec"] = decJ(d, p)
-		}
-		hlib.Emit(rec)
+		hlib.Emit(segRecord(id, d, sc, comp))
 	}
 	for i, l := range lens {
 		for k := 0; k < 2; k++ {
@@ -492,6 +545,9 @@ func c06(tier string, seed int64) {
 		{Desc{"half", 131071, 11}, true, "lz4"},
 		{Desc{"period", 131070, 5}, false, "none"},
 		{Desc{"rep", 65536, 0xAB}, false, "lz4"},
+		// the two largest legal sizes, compressible, through the compressing codec (sent compressed)
+		{Desc{"period", 131071, 9}, false, "lz4"},
+		{Desc{"rep", 131070, 0x5C}, true, "lz4"},
 	}
 	if thorough {
 		for _, pt := range pats {
@@ -515,7 +571,7 @@ func c06(tier string, seed int64) {
 		n     int
 		seed  int64
 	}
-	xcs := []xc{{"dist65536", 65520, 16}, {"dist65536", 65534, 15}, {"dist65536", 65400, 4}, {"dist65536", 65700, 40}, {"text", 70000, 33}, {"text", 131071, 33}, {"text", 131071, 1}, {"mixed", 131071, 2}, {"rows", 131071, 3}, {"text", 65536, 33}, {"rows", 70000, 4}}
+	xcs := []xc{{"ramp", 65786, 0}, {"ramp", 131297 - 226, 7}, {"dist65536", 65520, 16}, {"dist65536", 65534, 15}, {"dist65536", 65400, 4}, {"dist65536", 65700, 40}, {"text", 70000, 33}, {"text", 131071, 33}, {"text", 131071, 1}, {"mixed", 131071, 2}, {"rows", 131071, 3}, {"text", 65536, 33}, {"rows", 70000, 4}}
 	nx := 40
 	if thorough {
 		nx = 3000
@@ -534,17 +590,7 @@ func c06(tier string, seed int64) {
 			if comp == "none" && i%8 != 0 {
 				continue
 			}
-			e := encodeSeg(comp, i%2 == 0, p)
-			rec := J{"kind": "segx", "class": c.class, "len": c.n, "seed": c.seed, "plen": len(p), "comp": comp, "sc": i%2 == 0, "enc_ok": e.ok}
-			if e.ok {
-				d := decodeSeg(comp, e.out)
-				rec["dec"] = decJ(d, p)
-				rec["total"] = len(e.out)
-				if d.class == "ok" && !bytes.Equal(d.seg.Payload.UncompressedData, p) && comp == "lz4" {
-					rec["diag"] = diagnoseLz4(p, d.seg.Payload.UncompressedData)
-				}
-			}
-			hlib.Emit(rec)
+			hlib.Emit(segxRecord(c.class, c.n, c.seed, p, comp, i%2 == 0))
 		}
 	}
 
@@ -681,12 +727,26 @@ func c07(tier string, seed int64) {
 	}
 	total := map[string]int{}
 	accepted := 0
+	var sweeps []J
 	report := func(class string, b base, enc []byte, region string, positions []int, c []byte) {
 		accepted++
 		if accepted > 50 {
 			return
 		}
 		rec := J{"kind": "accepted", "class": class, "desc": b.d, "sc": b.sc, "comp": b.comp, "region": region, "bit_positions": append([]int{}, positions...), "segment_len": len(enc)}
+		// the damaged bytes: offset from the start of the region (payload region = transmitted payload || CRC-32) and from
+		// the start of the segment, with the original and the corrupted value
+		var changed []J
+		for i := range enc {
+			if enc[i] != c[i] {
+				rb := i
+				if region == "payload" {
+					rb = i - (len(enc) - 4 - transmittedLen(b.comp, enc))
+				}
+				changed = append(changed, J{"region_byte_offset": rb, "segment_byte_offset": i, "original": fmt.Sprintf("%02x", enc[i]), "corrupted": fmt.Sprintf("%02x", c[i])})
+			}
+		}
+		rec["changed_bytes"] = changed
 		if len(enc) <= 4096 {
 			rec["segment_hex"] = hex.EncodeToString(enc)
 			rec["corrupted_hex"] = hex.EncodeToString(c)
@@ -802,6 +862,102 @@ func c07(tier string, seed int64) {
 			}
 			try("bytes4-payload", b, e.out, "payload", hl, pos)
 		}
+		// long transmitted payloads (>= 64 KiB): positions at which a block-wise or chunked checksum implementation would
+		// change state - every power of two and every multiple of 4096 bytes, with their neighbours, the first and the last
+		// bytes of the payload and the CRC-32 field: all 8 single flips, the whole byte, the two bytes across the boundary,
+		// and 9..32-bit bursts ending or starting there.  Then a position-exhaustive sweep: one flipped bit in EVERY byte
+		// of payload||CRC-32 (thorough: all 8 bits of every byte), run on all cores.
+		if tb := len(e.out) - hl - 4; tb >= 65536 {
+			seen := map[int]bool{}
+			var offs []int
+			add := func(o int) {
+				for _, x := range []int{o - 2, o - 1, o, o + 1} {
+					if x >= 0 && x < tb+4 && !seen[x] {
+						seen[x] = true
+						offs = append(offs, x)
+					}
+				}
+			}
+			for o := 1; o <= tb; o *= 2 {
+				add(o)
+			}
+			for o := 4096; o <= tb; o += 4096 {
+				add(o)
+			}
+			add(1)
+			add(tb)     // last payload bytes / first CRC byte
+			add(tb + 3) // last CRC bytes
+			sort.Ints(offs)
+			for _, o := range offs {
+				for bit := 0; bit < 8; bit++ {
+					try("boundary-single", b, e.out, "payload", hl, []int{o*8 + bit})
+				}
+				try("boundary-byte", b, e.out, "payload", hl, []int{o * 8, o*8 + 1, o*8 + 2, o*8 + 3, o*8 + 4, o*8 + 5, o*8 + 6, o*8 + 7})
+				try("boundary-byte", b, e.out, "payload", hl, []int{o*8 + 1, o*8 + 4, o*8 + 6})
+				if o+1 < tb+4 {
+					try("boundary-2bytes", b, e.out, "payload", hl, []int{o*8 + 7, o*8 + 8})
+					try("boundary-2bytes", b, e.out, "payload", hl, []int{o * 8, o*8 + 3, o*8 + 5, o*8 + 9, o*8 + 15})
+				}
+				for _, bl := range []int{9, 17, 32} { // bursts of bl bits ending in byte o, and starting in byte o
+					if st := o*8 + 7 - (bl - 1); st >= 0 {
+						try("boundary-burst", b, e.out, "payload", hl, []int{st, st + bl/2, st + bl - 1})
+					}
+					if st := o * 8; st+bl <= pbits {
+						try("boundary-burst", b, e.out, "payload", hl, []int{st, st + 1, st + bl - 1})
+					}
+				}
+			}
+			// sweep (quick tier: on the first long base only; about 4 s on 16 cores per 131075 decodes)
+			if thorough || len(sweeps) == 0 {
+				sweepStart := time.Now()
+				nbytes := tb + 4
+				workers := runtime.NumCPU()
+				if workers > 16 {
+					workers = 16
+				}
+				type hit struct{ off, bit int }
+				hits := make([][]hit, workers)
+				counts := make([]int, workers)
+				var wg sync.WaitGroup
+				for w := 0; w < workers; w++ {
+					wg.Add(1)
+					go func(w int) {
+						defer wg.Done()
+						c := append([]byte{}, e.out...)
+						for o := w; o < nbytes; o += workers {
+							for bit := 0; bit < 8; bit++ {
+								if !thorough && bit != (o+o/8)%8 {
+									continue
+								}
+								c[hl+o] ^= 1 << uint(bit)
+								counts[w]++
+								if d := decodeSeg(b.comp, c); d.class != "err" {
+									hits[w] = append(hits[w], hit{o, bit})
+								}
+								c[hl+o] ^= 1 << uint(bit)
+							}
+						}
+					}(w)
+				}
+				wg.Wait()
+				var all []hit
+				for w := 0; w < workers; w++ {
+					total["sweep-every-byte"] += counts[w]
+					all = append(all, hits[w]...)
+				}
+				sort.Slice(all, func(i, j int) bool { return all[i].off*8+all[i].bit < all[j].off*8+all[j].bit })
+				for _, h := range all {
+					report("sweep-every-byte", b, e.out, "payload", []int{h.off*8 + h.bit}, flipBits(e.out, hl, []int{h.off*8 + h.bit}))
+				}
+				sweeps = append(sweeps, J{"desc": b.d, "comp": b.comp, "sc": b.sc, "bytes_swept": nbytes, "decodes": func() int {
+					t := 0
+					for _, x := range counts {
+						t += x
+					}
+					return t
+				}(), "boundary_offsets": len(offs), "accepted": len(all), "sweep_ms": time.Since(sweepStart).Milliseconds()})
+			}
+		}
 		// header + CRC-24: weights 1..3 exhaustively (thorough: ..4, and ..5 on the first two bases), 4..7 sampled
 		maxEx := 3
 		if thorough {
@@ -831,7 +987,15 @@ func c07(tier string, seed int64) {
 			}
 		}
 	}
-	hlib.Emit(J{"kind": "c07_summary", "tried": total, "accepted": accepted, "bases": len(bases)})
+	hlib.Emit(J{"kind": "c07_summary", "tried": total, "accepted": accepted, "bases": len(bases), "sweeps": sweeps})
+}
+
+// transmittedLen: number of payload bytes between the header (+CRC-24) and the CRC-32 of an encoded segment
+func transmittedLen(comp string, enc []byte) int {
+	if comp == "lz4" {
+		return len(enc) - 12
+	}
+	return len(enc) - 10
 }
 
 func min(a, b int) int {
@@ -879,7 +1043,11 @@ func roundTrip(algo, format string, x []byte) (r rtRes) {
 		err = snappy.Compressor{}.DecompressWithLength(bytes.NewReader(c), &dbuf)
 	}
 	if err != nil {
-		return rtRes{clen: len(c), detail: "decompress error"}
+		r := rtRes{clen: len(c), detail: "decompress error"}
+		if algo == "lz4" {
+			r.diag = diagnoseLz4(x, nil)
+		}
+		return r
 	}
 	if !bytes.Equal(dbuf.Bytes(), x) {
 		r := rtRes{clen: len(c), detail: fmt.Sprintf("decompressed to %d bytes, different from the %d-byte input", dbuf.Len(), len(x))}
@@ -992,6 +1160,23 @@ func c08(tier string, seed int64) {
 				prs = append(prs, pr{r1, r2})
 			}
 		}
+		// the same defect surfacing as a decompression ERROR (invalid offset near the end of the block): byte ramps
+		for _, rl := range []int{65786, 131297, 131071} {
+			x := expandClass("ramp", rl, 0)
+			for _, af := range [][2]string{{"lz4", "raw"}, {"lz4", "withlen"}} {
+				r := roundTrip(af[0], af[1], x)
+				n++
+				rec := J{"kind": "rt", "algo": af[0], "fmt": af[1], "class": "ramp", "len": len(x), "seed": 0, "clen": r.clen, "ok": r.ok}
+				if !r.ok {
+					fails++
+					rec["detail"] = r.detail
+					if r.diag != nil {
+						rec["diag"] = r.diag
+					}
+				}
+				hlib.Emit(rec)
+			}
+		}
 		for _, q := range prs {
 			x := expandClass("dist65536", q.a, int64(q.b))
 			for _, af := range [][2]string{{"lz4", "raw"}, {"lz4", "withlen"}, {"snappy", "withlen"}} {
@@ -1067,6 +1252,42 @@ func c08(tier string, seed int64) {
 			}
 		}
 	}
+	// segments through the compressing segment codec at the boundary payload sizes (the maximum 131071, 131070, and the
+	// 64 KiB neighbourhood) with compressible content, i.e. payloads that are really transmitted compressed and whose
+	// decompressed size is the largest the decoder may be asked to produce.  Descriptor classes give `seg` records (the
+	// model runs on them as well, with the library's compressed bytes as oracle answer); harness-only classes give `segx`.
+	{
+		sid := 0
+		bsizes := []int{131071, 131070}
+		if thorough {
+			bsizes = append(bsizes, 131069, 131068, 131064, 131040, 130000, 65537, 65536, 65535)
+		}
+		for _, sz := range bsizes {
+			for _, pat := range []string{"zero", "rep", "period", "half"} {
+				sid++
+				n++
+				d := Desc{pat, sz, int64(1 + rnd.Intn(200))}
+				rec := segRecord(sid, d, sid%2 == 1, "lz4")
+				if dj, _ := rec["dec"].(J); rec["enc_ok"] != true || dj["class"] != "ok" || dj["payload_eq"] != true {
+					fails++
+				}
+				hlib.Emit(rec)
+			}
+		}
+		xsizes := []int{131071, 131070, 131069, 65536, 65535, 32768}
+		for i, sz := range xsizes {
+			for k, class := range []string{"rows", "mixed", "text"} {
+				csd := int64(rnd.Intn(1 << 30))
+				p := expandClass(class, sz, csd)
+				n++
+				rec := segxRecord(class, sz, csd, p, "lz4", (i+k)%2 == 0)
+				if dj, _ := rec["dec"].(J); rec["enc_ok"] != true || dj["class"] != "ok" || dj["payload_eq"] != true {
+					fails++
+				}
+				hlib.Emit(rec)
+			}
+		}
+	}
 	hlib.Emit(J{"kind": "c08_summary", "cases": n, "failures": fails})
 }
 
@@ -1082,7 +1303,9 @@ func frameCase(algo string, v primitive.ProtocolVersion, q string) (ok bool, det
 	}
 	cc := frame.NewCodecWithCompression(bc)
 	pc := frame.NewCodec()
-	mk := func() *frame.Frame { return frame.NewFrame(v, 1, &message.Query{Query: q, Options: &message.QueryOptions{}}) }
+	mk := func() *frame.Frame {
+		return frame.NewFrame(v, 1, &message.Query{Query: q, Options: &message.QueryOptions{}})
+	}
 	f1 := mk()
 	f1.SetCompress(true)
 	var b1, b2 bytes.Buffer
